@@ -1,28 +1,8 @@
 From Coq Require Import List ZArith Bool.
 From Coq Require Import Strings.Byte.
 Import ListNotations.
-From LLIR Require Import Gen.Enums.
+From LLIR Require Import Gen.Enums Model.EnumModel.
 Local Open Scope Z_scope.
-
-Fixpoint bytes_eqb (a b : list byte) : bool :=
-  match a, b with
-  | [], [] => true
-  | x :: a', y :: b' => Byte.eqb x y && bytes_eqb a' b'
-  | _, _ => false
-  end.
-
-Fixpoint assocZ (v : Z) (l : list (Z * list byte)) : option (list byte) :=
-  match l with [] => None | (k, s) :: r => if k =? v then Some s else assocZ v r end.
-Fixpoint assocS (s : list byte) (l : list (list byte * Z)) : option Z :=
-  match l with [] => None | (k, v) :: r => if bytes_eqb k s then Some v else assocS s r end.
-
-Inductive outcome := Ok (v : Z) | Panic.
-Definition to_string (t : enum_tables) (v : Z) : option (list byte) := assocZ v (e_string t).  (* None = the T(%d) fallback *)
-Definition from_string (t : enum_tables) (s : list byte) : outcome :=
-  match s with
-  | [] => if e_empty0 t then Ok 0 else match assocS s (e_from t) with Some v => Ok v | None => Panic end
-  | _ => match assocS s (e_from t) with Some v => Ok v | None => Panic end
-  end.
 
 Definition roundtrip_ok (t : enum_tables) : bool :=
   forallb (fun v => match to_string t v with
